@@ -411,6 +411,41 @@ static int do_comp(const char *out, const char *tier) {
 		fprintf(f, "{\"e\":\"Name\",\"s\":\"%s\",\"ok\":%s,\"id\":%d,\"back\":\"%s\"}\n", names[i], r == mtbl_res_success ? "true" : "false",
 			r == mtbl_res_success ? (int)t : -1, back ? back : "");
 	}
+	/* every name with one character replaced by every other byte value, with one character added at either end, with one character
+	 * removed, and in every mix of upper and lower case */
+	static const char *canon[] = { "none", "snappy", "zlib", "lz4", "lz4hc", "zstd" };
+	for (int ci = 0; ci < 6; ci++) {
+		size_t L = strlen(canon[ci]);
+		char buf[16];
+		for (size_t pos = 0; pos <= L + 1; pos++)
+			for (int c = 1; c < 256; c++) {
+				if (pos < L) { memcpy(buf, canon[ci], L + 1); buf[pos] = (char)c; }
+				else if (pos == L) { memcpy(buf, canon[ci], L); buf[L] = (char)c; buf[L + 1] = 0; }
+				else { buf[0] = (char)c; memcpy(buf + 1, canon[ci], L + 1); }
+				mtbl_compression_type t = (mtbl_compression_type)77;
+				mtbl_res r = mtbl_compression_type_from_str(buf, &t);
+				fprintf(f, "{\"e\":\"NameB\",\"sb\":[");
+				for (size_t i = 0; buf[i]; i++) fprintf(f, i ? ",%u" : "%u", (unsigned char)buf[i]);
+				fprintf(f, "],\"ok\":%s,\"id\":%d}\n", r == mtbl_res_success ? "true" : "false", r == mtbl_res_success ? (int)t : -1);
+			}
+		for (unsigned mask = 0; mask < (1u << L); mask++) {
+			for (size_t i = 0; i < L; i++) buf[i] = (mask >> i & 1) && canon[ci][i] >= 'a' && canon[ci][i] <= 'z' ? (char)(canon[ci][i] - 32) : canon[ci][i];
+			buf[L] = 0;
+			mtbl_compression_type t = (mtbl_compression_type)77;
+			mtbl_res r = mtbl_compression_type_from_str(buf, &t);
+			fprintf(f, "{\"e\":\"NameB\",\"sb\":[");
+			for (size_t i = 0; buf[i]; i++) fprintf(f, i ? ",%u" : "%u", (unsigned char)buf[i]);
+			fprintf(f, "],\"ok\":%s,\"id\":%d}\n", r == mtbl_res_success ? "true" : "false", r == mtbl_res_success ? (int)t : -1);
+		}
+		for (size_t pos = 0; pos < L; pos++) {
+			memcpy(buf, canon[ci], pos); memcpy(buf + pos, canon[ci] + pos + 1, L - pos);
+			mtbl_compression_type t = (mtbl_compression_type)77;
+			mtbl_res r = mtbl_compression_type_from_str(buf, &t);
+			fprintf(f, "{\"e\":\"NameB\",\"sb\":[");
+			for (size_t i = 0; buf[i]; i++) fprintf(f, i ? ",%u" : "%u", (unsigned char)buf[i]);
+			fprintf(f, "],\"ok\":%s,\"id\":%d}\n", r == mtbl_res_success ? "true" : "false", r == mtbl_res_success ? (int)t : -1);
+		}
+	}
 	for (int t = 0; t <= 5; t++) {
 		const char *s = mtbl_compression_type_to_str((mtbl_compression_type)t);
 		fprintf(f, "{\"e\":\"ToStr\",\"id\":%d,\"s\":\"%s\"}\n", t, s ? s : "");
